@@ -182,4 +182,93 @@ def visCounts : List (List (Pt R) × List (Pt R)) → Nat × Nat × Nat × Nat
 def ratio [Div R] (cast : Nat → R) (a b : Nat) : Option R :=
   if a + b = 0 then none else some (cast a / cast (a + b))
 
+/-! ## `find_frame_pairs` -/
+
+/-- what `find_frame_pairs` looks at in a `sio.Video`: the backend class, the filename and — for
+HDF5-backed videos only — the dataset inside the file (`none` = the backend has no `dataset`
+attribute: `MediaVideo`, `ImageVideo`, an unopened backend).  Videos embedded in one `.pkg.slp`
+share `kind` and `filename` and differ only by `dataset`. -/
+structure VideoKey where
+  kind : Nat
+  filename : Nat
+  dataset : Option Nat
+deriving DecidableEq, Repr
+
+/-- a `LabeledFrame`: `video` is the position of its `Video` object in `labels.videos` (object
+identity), `insts` its user instances (gt side) / predicted instances (prediction side) -/
+structure LFrame (I : Type) where
+  video : Nat
+  frameIdx : Nat
+  insts : List I
+
+structure Labels (I : Type) where
+  videos : List VideoKey
+  frames : List (LFrame I)
+
+/-- the video-matching condition: `isinstance(video.backend, type(video_gt.backend)) and
+video.filename == video_gt.filename and video.backend.dataset == video_gt.backend.dataset` -/
+def sameVideo (vgt v : VideoKey) : Bool :=
+  v.kind == vgt.kind && v.filename == vgt.filename && v.dataset == vgt.dataset
+
+/-- index of the first element satisfying `p` (`for video in labels_pr.videos: if …: break`) -/
+def firstIdx {α : Type} (p : α → Bool) : List α → Option Nat
+  | [] => none
+  | a :: t => if p a then some 0 else (firstIdx p t).map (· + 1)
+
+/-- pairs of one gt video `vi` matched to prediction video `pj`: every gt frame of that video with
+≥ 1 user instance, paired with the prediction frame of `pj` carrying the same `frame_idx`, if any -/
+def pairsOfVideo {G P : Type} (gt : Labels G) (pr : Labels P) (vi pj : Nat) : List (LFrame G × LFrame P) :=
+  (gt.frames.filter (fun lf => lf.video == vi && !lf.insts.isEmpty)).flatMap (fun lf =>
+    match pr.frames.find? (fun x => x.video == pj && x.frameIdx == lf.frameIdx) with
+    | some x => [(lf, x)]
+    | none => [])
+
+def pairsFrom {G P : Type} (gt : Labels G) (pr : Labels P) : Nat → List VideoKey → List (LFrame G × LFrame P)
+  | _, [] => []
+  | vi, vk :: rest =>
+    (match firstIdx (sameVideo vk) pr.videos with
+      | none => []
+      | some pj => pairsOfVideo gt pr vi pj) ++ pairsFrom gt pr (vi + 1) rest
+
+/-- `find_frame_pairs(labels_gt, labels_pr, user_labels_only=True)` with F-C16c repaired
+(a backend without `dataset` compares as `None`) -/
+def findFramePairs {G P : Type} (gt : Labels G) (pr : Labels P) : List (LFrame G × LFrame P) :=
+  pairsFrom gt pr 0 gt.videos
+
+/-- the pinned tree: `video.backend.dataset` raises `AttributeError` as soon as a prediction video
+with the same backend class and filename as some gt video has no `dataset` attribute (`none` = raise) -/
+def findFramePairsAsIs {G P : Type} (gt : Labels G) (pr : Labels P) : Option (List (LFrame G × LFrame P)) :=
+  if gt.videos.any (fun vk => pr.videos.any (fun v =>
+      v.kind == vk.kind && v.filename == vk.filename && (v.dataset.isNone || vk.dataset.isNone)))
+  then none else some (findFramePairs gt pr)
+
+/-- the frames handed to `match_frame_pairs` -/
+def evalFrames {G P : Type} (gt : Labels G) (pr : Labels P) : List (Frame G P) :=
+  (findFramePairs gt pr).map (fun ab => { gts := ab.1.insts, prs := some ab.2.insts })
+
+/-! ## percentiles of the distance summary -/
+
+section pct
+variable [Add R] [Sub R] [Mul R] [Div R] [LT R] [DecidableLT R] [OfNat R 0]
+
+/-- ascending sort (`np.percentile` partitions; only the order statistics matter) -/
+def sortAsc (l : List R) : List R := (sortDesc (fun x => x) l).reverse
+
+/-- `np.percentile(x, p)` (default linear interpolation) for an integer `p ≤ 100`: virtual index
+`h = (n-1)·p/100`, value `x_(⌊h⌋) + frac(h)·(x_(⌊h⌋+1) − x_(⌊h⌋))`; `none` for an empty sample
+(the code then leaves NaN) -/
+def percentile (cast : Nat → R) (p : Nat) (l : List R) : Option R :=
+  match sortAsc l with
+  | [] => none
+  | s0 :: st =>
+    let s := s0 :: st
+    let n := s.length
+    let k := (n - 1) * p / 100
+    let r := (n - 1) * p % 100
+    let a := s.getD k s0
+    let b := s.getD (min (k + 1) (n - 1)) s0
+    some (a + cast r / cast 100 * (b - a))
+
+end pct
+
 end SleapVerif.Eval
